@@ -9,7 +9,7 @@ import random
 from . import corpus
 from . import cacheworld as cw
 
-FILE_NAMES = ['src/a/mod.py', 'src/b/mod.py', 'src/a/util.py', 'src/mod.py', 'src/b/c/mod.py']
+FILE_NAMES = ['src/a/mod.py', 'src/b/mod.py', 'src/a/util.py', 'src/mod.py', 'src/b/c/mod.py', 'src/flink.py']
 
 # lines whose tree depends on the grammar version: a tree served for the wrong
 # grammar can never compare equal by accident
@@ -98,8 +98,13 @@ def _edit_ops(rng, cfg, state, f=None, inflight_bias=False):
     if f is None:
         f = rng.randrange(len(cfg['files']))
     state['n'][f] = state['n'].get(f, 0) + 1
-    text = _small_text(rng, f, state['n'][f])
-    enc = _encode_variant(rng, text)
+    hist = state.setdefault('hist', {}).setdefault(f, [])
+    if hist and rng.random() < 0.15:
+        enc = dict(rng.choice(hist))                       # undo: exactly an earlier content of this file
+    else:
+        text = _small_text(rng, f, state['n'][f])
+        enc = _encode_variant(rng, text)
+        hist.append(dict(enc))
     dt = rng.choice([0.0, 0.0, 0.001, 0.3, 1.0, 1.0, 2.5, 100.0])
     r = rng.random()
     mt = None
